@@ -12,6 +12,37 @@ def hook_commits():
 
 # id -> (engine, category, technique, level text, level note, design ref)
 CHECKS = {
+
+ "C01": ("enum", "model_checking",
+         "bounded-exhaustive type-directed program enumeration executed on the real pipeline and 4 back ends; result values walked through exported fields",
+         "Every well-typed program of the object alphabet up to the depth bound (object literals in all field permutations inside lists, maps, branches and polymorphic calls, projected by member / subscript; raw, host-map and host-struct environments whose objects are stored in both field orders; programs compiled against one field order and invoked with the other) is compiled and run on the four back ends; the real inferred type, the dynamic type of the result and the declared type of every component must agree and no component may be nil. A worker that dies while reading a value is attributed to the program (isolated 5x re-run).",
+         "Trusted: the value reader (mc/real/val.go) and the term renderer. Bound: depth 2 with one nested operand (quick) / full depth 2, depth 3 for num/str results (thorough); function-typed values not covered.",
+         "DESIGN.md §4 C01"),
+ "C02": ("enum", "model_checking",
+         "bounded-exhaustive enumeration of programs over the partial-operation alphabet, each execution compared with an independent reference evaluator's predicted value / failure kind",
+         "All programs up to the depth bound over boundary indices (negative, fractional, len, 2^53, 1e300, NaN, ±Inf), present / absent map keys, zero / fractional / huge modulo divisors, valid / invalid patterns, get-with-default forms and empty containers, plus linear size sweeps past the VM's 42-slot stack and 8/16-bit operands, are run on the four back ends. A value must be returned exactly when the reference defines one; a failure must be the documented kind (index / key / modulo-by-zero / pattern); anything else (Go runtime error, nil dereference, 'unreachable', unsupported opcode, empty Pop) is an internal fault.",
+         "Trusted: mc/ref evaluator (README semantics). Index / modulo truncation is only specified inside the int64 range; outside it the oracle demands 'documented failure or value'.",
+         "DESIGN.md §4 C02"),
+ "C03": ("enum", "model_checking",
+         "bounded-exhaustive differential execution of every enumerated program on the four back ends (call-threaded loop through the build-tag hook)",
+         "The union of the C01 / C02 / C04 / C06 corpora and targeted families (duplicate and numerically equal map keys, 255 / 256 arguments, deep stacks inside thunks, branches longer than 255 and 65535 bytes, thunk bodies with many constants) is run on the VM switch loop, the VM call-threaded loop, the closure compiler and the AST interpreter with user-registered strict / lazy / polymorphic functions; outcome class, value (structural, own reader) and ordered host-call trace must agree pairwise; a compile-time refusal is only accepted from the VM as its capacity assertion.",
+         "No reference model involved. Known finding: the call-threaded loop's 1024-instruction cap (KNOWN_FINDINGS.json).",
+         "DESIGN.md §4 C03"),
+ "C04": ("enum", "model_checking",
+         "bounded-exhaustive argument grids and literal forms executed on the real code, every result compared element by element with an independent reference evaluator",
+         "For every documented overload (polymorphic ones instantiated over five element types and two map shapes) the full grid of argument tuples from the boundary pools (tolerance edges, -0, beyond 2^53 / 2^63, ±Inf, NaN; non-ASCII / combining / 4-byte strings; duplicate-laden lists; maps; objects in both field orders; optionals; equal and adjacent instants) is evaluated as raw environment data, as host map data and as literals on the four back ends; every numeric literal text of <= 5 (thorough 6) characters accepted by the documented grammar, every string escape, absolute date-time forms over a calendar grid, and depth-2 compositions are evaluated as well. Values are compared bit-exactly (NaN ≡ NaN), never with the language's tolerance.",
+         "Trusted: mc/ref (README semantics; rendering formats mirrored from the documented implementation), Go's math / regexp / time.Parse as shared library code. Relative time forms excluded.",
+         "DESIGN.md §4 C04"),
+ "C05": ("enum", "model_checking",
+         "bounded-exhaustive UNTYPED term enumeration and all registration orders of extra overloads, accept / reject and inferred type compared with an independent reference checker",
+         "All terms of depth <= 1 over 12 atoms × 30 constructors, all depth-2 terms with one nested operand, all single-position type-breaking replacements of the well-typed small-alphabet programs, a variable of each of 16 types in 23 contexts, and five overload families registered in every order (k! for k <= 4) and every subset: the reference checker (syntax-directed, one-way matching, written from the README rules) must agree with types.Infer on accept / reject and on the inferred type, Expr.Compile must agree on two back ends, and no accepted program may raise a type error at run time.",
+         "Trusted: mc/ref/check.go. The ⊥ rules and 'first instantiating poly overload wins' are mirrored as documented in DESIGN.md §7.",
+         "DESIGN.md §4 C05"),
+ "C06": ("enum", "model_checking",
+         "bounded-exhaustive enumeration of effect-recording and poisoned programs; ordered host-call trace compared with the reference evaluator on 4 back ends",
+         "Tracer calls (numbered in source order) and failing terms are placed in every operand position of if, ?:, &&, ||, user-registered lazy and / or / second / twice, strict calls, list / map / object literals and subscripts, nested up to the depth bound, plus hand-built three-level nestings of lazy calls inside thunks; on each of the four back ends the ordered trace of host-function invocations and the outcome class must equal the reference evaluator's (condition once, selected operand only, strict operands once and left to right, key before value).",
+         "Trusted: mc/ref evaluator's evaluation order (README / property statement).",
+         "DESIGN.md §4 C06"),
  "C17": ("enum", "model_checking",
          "bounded-exhaustive enumeration of type pairs executed on the real Unify/Equals, judged against an independent matcher and algebraic laws",
          "Every ordered pair of types up to depth 1 (width 2) over the full constructor alphabet, every same-constructor pair of a reduced depth-2 set, and every pair of argument 2-tuples (tree-shaped and pointer-shared) is run through the real types.Equals / types.Unify in both orders; Equals must coincide with structural identity by field name, and a successful Unify must yield an acyclic substitution that makes both sides equal (relaxed only at the documented ⊥/⊤ positions) and must succeed exactly when the reference one-way matcher finds an instantiation for pattern-vs-ground pairs. Exhaustive within that bound; nothing is sampled.",
